@@ -414,14 +414,15 @@ func c17Run(c *caseCtx) (res caseResult) {
 			tag := fmt.Sprintf("down-%d-%d", round, i)
 			return n1.mon.count(func(x any) bool {
 				ev, ok := x.(actor.DeadLetterEvent)
-				if !ok || ev.Target == nil || ev.Target.ID != "stream/"+a2 {
-					return false
-				}
-				d, ok := unwrapDeliver(ev.Message)
 				if !ok {
 					return false
 				}
-				tm, ok := d.Msg.(*remote.TestMessage)
+				// whichever PID the dead letter names (today: the stream writer's), it carries the undelivered message
+				msg := ev.Message
+				if d, ok := unwrapDeliver(msg); ok {
+					msg = d.Msg
+				}
+				tm, ok := msg.(*remote.TestMessage)
 				return ok && string(tm.Data) == tag
 			})
 		}
